@@ -136,6 +136,11 @@ SelTracked(st, a) == IF Tracked(st, a) THEN {a} ELSE TrackedUnder(st, a)
 SelAll(st, args) == UNION {SelTracked(st, a) : a \in args}
 ArgsDisjoint(st, argseq) ==
     \A i, j \in 1..Len(argseq) : i # j => SelTracked(st, argseq[i]) \cap SelTracked(st, argseq[j]) = {}
+(* an argument that is a tracked path and also has tracked paths beneath it (a file/directory conflict in the  *)
+(* staging area) can be read either way: the exactness clauses leave such arguments alone                      *)
+NoDFArgs(st, args) == \A a \in args : ~(Tracked(st, a) /\ TrackedUnder(st, a) # {})
+(* a tracked path that is a directory on disk (with possibly untracked files in it) may be refused by rm *)
+NoneIsDirOnDisk(st, paths) == paths \cap SeqToSet(st.dirs) = {}
 ArgsAllTracked(st, args) == \A a \in args : SelTracked(st, a) # {}
 RestrictWt(wt, keep) == [p \in (DOMAIN wt) \cap keep |-> wt[p]]
 
@@ -192,6 +197,8 @@ StateClausesW(s, e, t, connS, connT) ==
                   /\ o.k \in {"blob", "commit"} => (cf.p.c = o.d /\ cf.p.nl)),
     Cl("C03_Connected", {"C03"}, IsCmd(e) /\ connS,
         IsCmd(e) /\ connS => connT),
+    Cl("C03_HeadKept", {"C03"}, IsCmd(e) /\ connS /\ HeadHasCommit(s.st),
+        IsCmd(e) /\ connS /\ HeadHasCommit(s.st) => HeadHasCommit(T)),     \* HEAD never goes from a branch with a commit to a branch that does not exist
     Cl("C05_CatTree", {"C05"}, HasObs(t, "catfile") /\ \E id \in DOMAIN t.obs.catfile : Obj(T, id).k = "tree",
         HasObs(t, "catfile") =>
             \A id \in DOMAIN t.obs.catfile :
@@ -304,7 +311,7 @@ CommitClausesW(s, e, t, connS, connT) ==
             /\ \A b \in Branches(S) \ {hb} : T.refs[b] = S.refs[b]
             /\ T.idx = S.idx /\ T.wt = S.wt
             /\ (hb \in Branches(S) /\ D # {}) => T.refs[hb] # S.refs[hb]),
-    Cl("C02_Who", {"C02", "C20"}, okC /\ IdentitySet(S),
+    Cl("C02_Who", {"C02", "C20", "C12"}, okC /\ IdentitySet(S),
         okC /\ IdentitySet(S) =>
             /\ co.author.ok /\ co.committer.ok
             /\ co.author.name = Eff(S, "name") /\ co.author.email = Eff(S, "email")
@@ -345,8 +352,8 @@ CommitClausesW(s, e, t, connS, connT) ==
 StageClausesW(s, e, t, connS, connT) ==
     LET S == s.st  T == t.st
         isAdd == e.ev = "add" /\ Dom(e) /\ connS
-        isRm == e.ev = "rm" /\ Dom(e) /\ connS
-        isRestore == e.ev = "restore" /\ Dom(e) /\ connS
+        isRm == e.ev = "rm" /\ Dom(e) /\ connS /\ NoDFArgs(S, ArgSet(e))
+        isRestore == e.ev = "restore" /\ Dom(e) /\ connS /\ NoDFArgs(S, ArgSet(e))
         isRestoreS == e.ev = "restores" /\ Dom(e) /\ connS /\ HeadHasCommit(S)
     IN
     <<
@@ -363,8 +370,8 @@ StageClausesW(s, e, t, connS, connT) ==
             LET R == SelAll(S, ArgSet(e)) IN
             /\ IdxPairs(T.idx) = {x \in IdxPairs(S.idx) : x[1] \notin R}
             /\ T.wt = RestrictWt(S.wt, DOMAIN S.wt \ R)),
-    Cl("C06_RmFound", {"C06", "C04"}, isRm /\ Len(e.paths) > 0 /\ ArgsAllTracked(S, ArgSet(e)) /\ ArgsDisjoint(S, e.paths),
-        isRm /\ Len(e.paths) > 0 /\ ArgsAllTracked(S, ArgSet(e)) /\ ArgsDisjoint(S, e.paths) => Ok(e)),
+    Cl("C06_RmFound", {"C06", "C04"}, isRm /\ Len(e.paths) > 0 /\ ArgsAllTracked(S, ArgSet(e)) /\ ArgsDisjoint(S, e.paths) /\ NoneIsDirOnDisk(S, SelAll(S, ArgSet(e))),
+        isRm /\ Len(e.paths) > 0 /\ ArgsAllTracked(S, ArgSet(e)) /\ ArgsDisjoint(S, e.paths) /\ NoneIsDirOnDisk(S, SelAll(S, ArgSet(e))) => Ok(e)),
     Cl("C06_RmUnknown", {"C06", "C18"}, isRm /\ \E a \in ArgSet(e) : SelTracked(S, a) = {},
         isRm /\ (\E a \in ArgSet(e) : SelTracked(S, a) = {}) => Refused(e) /\ Unchanged(s, t)),
     Cl("C09_Worktree", {"C09", "C06"}, isRestore /\ Ok(e),
